@@ -12,4 +12,6 @@ def run(ctx):
     D.err_xlate(ctx)
     D.timeout_raise(ctx)
     D.restore(ctx)
+    ctx.rule("R-IDLE-RESET", "after a failed operation the server's transaction identity is cleared (reset_query and every return to IDLE)", floor=3)
+    D.idle_reset(ctx)
     return "key-check dominance, error translation, bounded wait and restore-on-all-exits of the DM14 facade, client and server"
